@@ -1,4 +1,275 @@
-From Coq Require Import NArith List Bool Lia.
+(* Proofs/YansiFnGen.v -- the RENDERING of a yansi::Style by the third-party crate yansi 1.0.1, translated
+   from the pinned registry source (tools/gen_fn_yansi.py -> Generated/YansiFn.v), is (1) equal to the hand
+   rendering [ya_render_bytes] -- no panic --, and (2) read back by the terminal model of C05 / C07
+   (Spec/Vt + Spec/Sgr, from the default rendition) as exactly the meaning Spec/Targets.v assigns to the
+   value; composed with the translated adapter: render (convert s) interprets to project(s). *)
+From Coq Require Import NArith Arith List Bool Lia.
 From AV Require Import Model.Base Model.Imp Model.YansiRender Generated.YansiFn.
+From AV Require Import Spec.Vt Spec.Sgr Spec.Render Spec.Targets Proofs.Render.
 Import ListNotations.
 Local Open Scope N_scope.
+
+(* ======================================================================== *)
+(* 1. the hand rendering                                                      *)
+
+Definition ya_all_attrs : list ya_attr :=
+  [YaBold; YaDim; YaItalic; YaUnderline; YaBlink; YaRapidBlink; YaInvert; YaConceal; YaStrike].
+Definition ya_attr_list (bits : N) : list ya_attr :=
+  filter (fun a => N.testbit bits (ya_attr_disc a)) ya_all_attrs.
+Definition ya_attr_code (a : ya_attr) : N := ya_attr_disc a + 1.
+Definition ya_has (qs : N) (q : ya_quirk) : bool := N.testbit qs (ya_quirk_disc q).
+
+Definition ya_base (c : ya_color) : N :=
+  match c with
+  | YaBlack => 30 | YaRed => 31 | YaGreen => 32 | YaYellow => 33 | YaBlue => 34 | YaMagenta => 35 | YaCyan => 36
+  | YaWhite => 37 | YaFixed _ | YaRgb _ _ _ => 38 | YaPrimary => 39
+  | YaBrightBlack => 90 | YaBrightRed => 91 | YaBrightGreen => 92 | YaBrightYellow => 93 | YaBrightBlue => 94
+  | YaBrightMagenta => 95 | YaBrightCyan => 96 | YaBrightWhite => 97
+  end.
+Definition ya_vbase (v : ya_variant) (c : ya_color) : N := match v with YaFg => ya_base c | YaBg => ya_base c + 10 end.
+(* the SGR parameters one colour contributes *)
+Definition ya_color_codes (v : ya_variant) (c : ya_color) : list N :=
+  match c with
+  | YaFixed n => [ya_vbase v c; 5; n]
+  | YaRgb r g b => [ya_vbase v c; 2; r; g; b]
+  | _ => [ya_vbase v c]
+  end.
+Definition ya_bright (c : ya_color) : ya_color :=
+  match c with
+  | YaBlack => YaBrightBlack | YaRed => YaBrightRed | YaGreen => YaBrightGreen | YaYellow => YaBrightYellow
+  | YaBlue => YaBrightBlue | YaMagenta => YaBrightMagenta | YaCyan => YaBrightCyan | YaWhite => YaBrightWhite
+  | other => other
+  end.
+Definition ya_brighten (c : option ya_color) (b : bool) : option ya_color :=
+  match c, b with Some c, true => Some (ya_bright c) | _, _ => c end.
+
+(* items: one list of SGR parameters per attribute / colour, in the order yansi writes them *)
+Definition ya_items (st : ya_style) : list (list N) :=
+  map (fun a => [ya_attr_code a]) (ya_attr_list (ya_attrs st))
+  ++ match ya_brighten (ya_bg st) (ya_has (ya_quirks st) YaOnBright) with Some c => [ya_color_codes YaBg c] | None => [] end
+  ++ match ya_brighten (ya_fg st) (ya_has (ya_quirks st) YaBright) with Some c => [ya_color_codes YaFg c] | None => [] end.
+
+Definition ya_item_bytes (codes : list N) : list N := rn_join 59 (map ya_dec codes).
+(* what the AnsiSplicer produces: every item but the first is preceded by ';' *)
+Fixpoint ya_spliced (flag : bool) (items : list (list N)) : list N :=
+  match items with
+  | [] => []
+  | it :: rest => (if flag then [59] else []) ++ ya_item_bytes it ++ ya_spliced true rest
+  end.
+
+Definition ya_is_default (st : ya_style) : bool :=
+  opt_eqb ya_color_eqb (ya_fg st) None && opt_eqb ya_color_eqb (ya_bg st) None && (ya_attrs st =? 0).
+
+Definition ya_prefix (st : ya_style) : list N :=
+  if ya_is_default st then [] else [27; 91] ++ ya_spliced false (ya_items st) ++ [109].
+Definition ya_suffix (st : ya_style) : list N :=
+  if negb (ya_has (ya_quirks st) YaResetting) && negb (ya_has (ya_quirks st) YaClear)
+     && (ya_has (ya_quirks st) YaLinger || ya_is_default st)
+  then [] else [27; 91; 48; 109].
+
+(* the values the Rust types can hold and the API can build *)
+Definition ya_color_ok (c : option ya_color) : Prop :=
+  match c with
+  | Some (YaFixed n) => n < 256
+  | Some (YaRgb r g b) => r < 256 /\ g < 256 /\ b < 256
+  | _ => True
+  end.
+Definition ya_style_ok (st : ya_style) : Prop :=
+  ya_color_ok (ya_fg st) /\ ya_color_ok (ya_bg st) /\ ya_attrs st < 512.
+
+(* ======================================================================== *)
+(* 2. the translated functions are the hand rendering                         *)
+
+Lemma g_ya_fg_base_eq c : g_ya_fg_base c = ya_base c.
+Proof. destruct c; reflexivity. Qed.
+
+Lemma g_ya_to_bright_eq c : g_ya_to_bright c = ya_bright c.
+Proof. destruct c; reflexivity. Qed.
+
+Lemma land_pow2_testbit k bits : (N.land (2 ^ k) bits =? 2 ^ k) = N.testbit bits k.
+Proof.
+  destruct (N.testbit bits k) eqn:E.
+  - apply N.eqb_eq. apply N.bits_inj. intros j. rewrite N.land_spec, N.pow2_bits_eqb.
+    destruct (N.eqb_spec k j) as [->|]; [now rewrite E|reflexivity].
+  - apply N.eqb_neq. intros H. apply (f_equal (fun x => N.testbit x k)) in H.
+    rewrite N.land_spec, N.pow2_bits_true, E in H. discriminate.
+Qed.
+
+Lemma g_ya_seta_contains_eq bits a : g_ya_seta_contains bits a = Some (N.testbit bits (ya_attr_disc a)).
+Proof.
+  unfold g_ya_seta_contains, g_ya_attr_sm_bit_mask, g_ya_attr_bit_mask, ya_set_f1.
+  destruct a; cbn [ya_attr_disc]; vm_compute (ya_cshl _ _ _); cbv beta iota;
+    match goal with |- context [N.land ?m bits] =>
+      let k := eval vm_compute in (N.log2 m) in change m with (2 ^ k); rewrite land_pow2_testbit end; reflexivity.
+Qed.
+
+Lemma g_ya_setq_contains_eq qs q : g_ya_setq_contains qs q = Some (ya_has qs q).
+Proof.
+  unfold g_ya_setq_contains, g_ya_quirk_sm_bit_mask, g_ya_quirk_bit_mask, ya_set_f1, ya_has.
+  destruct q; cbn [ya_quirk_disc]; vm_compute (ya_cshl _ _ _); cbv beta iota;
+    match goal with |- context [N.land ?m qs] =>
+      let k := eval vm_compute in (N.log2 m) in change m with (2 ^ k); rewrite land_pow2_testbit end; reflexivity.
+Qed.
+
+(* the attribute iterator, drained: exactly the set's members in declaration order *)
+Definition ya_attr_list_dec (a b : option (list ya_attr)) : {a = b} + {a <> b}.
+Proof. repeat decide equality. Defined.
+
+Definition ya_drain_attrs (bits : N) : option (list ya_attr) :=
+  iter_drain g_ya_iter_next (S (S (N.to_nat g_ya_attr_MAX_VALUE))) (g_ya_seta_iter bits).
+
+Lemma ya_drain_all : forallb (fun bits => if ya_attr_list_dec (ya_drain_attrs bits) (Some (ya_attr_list bits)) then true else false)
+                             (map N.of_nat (seq 0 512)) = true.
+Proof. vm_compute. reflexivity. Qed.
+
+Lemma ya_drain_attrs_eq bits : bits < 512 -> ya_drain_attrs bits = Some (ya_attr_list bits).
+Proof.
+  intros H. pose proof ya_drain_all as A. rewrite forallb_forall in A.
+  specialize (A bits). destruct (ya_attr_list_dec (ya_drain_attrs bits) (Some (ya_attr_list bits))) as [E|]; [exact E|].
+  assert (false = true); [|discriminate]. apply A. apply in_map_iff. exists (N.to_nat bits). split; [lia|].
+  apply in_seq. lia.
+Qed.
+
+(* ---- the splicer's steps --------------------------------------------------- *)
+
+Lemma g_ya_splicer_write_str_eq buf fl s :
+  g_ya_splicer_write_str (mkYaSplicer buf fl) s = (mkYaSplicer (buf ++ s) fl, inl tt).
+Proof. reflexivity. Qed.
+
+Lemma g_ya_splice_eq buf fl :
+  g_ya_splice (mkYaSplicer buf fl) = (mkYaSplicer (buf ++ (if fl then [59] else [])) true, inl tt).
+Proof. destruct fl; cbn; [reflexivity|]. now rewrite app_nil_r. Qed.
+
+Lemma g_ya_attr_fmt_eq a buf fl :
+  g_ya_attr_fmt a (mkYaSplicer buf fl) = (mkYaSplicer (buf ++ ya_item_bytes [ya_attr_code a]) fl, inl tt).
+Proof. destruct a; reflexivity. Qed.
+
+Lemma ya_base_bound c : ya_base c <= 97.
+Proof. destruct c; cbn; lia. Qed.
+
+Lemma g_ya_color_fmt_eq c v buf fl :
+  g_ya_color_fmt c (mkYaSplicer buf fl) v = Some (mkYaSplicer (buf ++ ya_item_bytes (ya_color_codes v c)) fl, inl tt).
+Proof.
+  unfold g_ya_color_fmt. rewrite g_ya_fg_base_eq.
+  assert (Hc : cadd 8 (ya_base c) 10 = Some (ya_base c + 10)).
+  { unfold cadd. pose proof (ya_base_bound c). change (2 ^ 8) with 256.
+    destruct (N.ltb_spec (ya_base c + 10) 256); [reflexivity|lia]. }
+  destruct v; cbn [ya_vbase]; rewrite ?Hc; cbv beta iota;
+    destruct c; cbn [ya_color_codes ya_vbase ya_item_bytes map rn_join];
+    rewrite ?g_ya_splicer_write_str_eq; cbv beta iota;
+    rewrite ?g_ya_splicer_write_str_eq; cbv beta iota;
+    repeat (rewrite g_ya_splicer_write_str_eq; cbv beta iota);
+    repeat (rewrite <- app_assoc; cbn [app]); reflexivity.
+Qed.
+
+(* the loop over the attributes *)
+Lemma ya_spliced_app fl a b :
+  ya_spliced fl (a ++ b) = ya_spliced fl a ++ ya_spliced (fl || match a with [] => false | _ => true end) b.
+Proof.
+  revert fl. induction a as [|x t IH]; intros fl; cbn [app ya_spliced].
+  - now rewrite orb_false_r.
+  - rewrite IH, orb_true_r. destruct t; cbn [orb]; rewrite <- !app_assoc; reflexivity.
+Qed.
+
+Definition ya_nonempty {A} (l : list A) : bool := match l with [] => false | _ => true end.
+
+Lemma ya_attr_loop (F : ya_attr -> ya_splicer -> option (lctl ya_splicer (ya_splicer * (unit + unit)))) :
+  (forall a buf fl, F a (mkYaSplicer buf fl) =
+      Some (LNext (mkYaSplicer (buf ++ (if fl then [59] else []) ++ ya_item_bytes [ya_attr_code a]) true))) ->
+  forall l buf fl,
+  for_list F l (mkYaSplicer buf fl) =
+  Some (inl (mkYaSplicer (buf ++ ya_spliced fl (map (fun a => [ya_attr_code a]) l)) (fl || ya_nonempty l))).
+Proof.
+  intros HF. induction l as [|a t IH]; intros buf fl; cbn [for_list map ya_spliced ya_nonempty].
+  - now rewrite app_nil_r, orb_false_r.
+  - rewrite HF, IH, orb_true_r. cbn [orb]. rewrite <- !app_assoc. reflexivity.
+Qed.
+
+Lemma g_ya_style_eq_default st : g_ya_style_eq st g_ya_style_DEFAULT = ya_is_default st.
+Proof. reflexivity. Qed.
+
+(* one optional colour: `if let Some(color) = .. { f.splice()?; color.fmt(&mut f, variant)?; }` *)
+Definition ya_ocolor_item (v : ya_variant) (c : option ya_color) : list (list N) :=
+  match c with Some c => [ya_color_codes v c] | None => [] end.
+
+Lemma g_ya_fmt_prefix_eq st f : ya_attrs st < 512 ->
+  g_ya_fmt_prefix st f = Some (f ++ ya_prefix st, inl tt).
+Proof.
+  intros Hb. unfold g_ya_fmt_prefix, ya_prefix. rewrite g_ya_style_eq_default.
+  destruct (ya_is_default st); [now rewrite app_nil_r|].
+  cbv zeta. rewrite g_ya_splicer_write_str_eq. cbv beta iota.
+  change (iter_drain g_ya_iter_next (S (S (N.to_nat g_ya_attr_MAX_VALUE))) (g_ya_seta_iter (ya_attrs st)))
+    with (ya_drain_attrs (ya_attrs st)).
+  rewrite (ya_drain_attrs_eq _ Hb).
+  match goal with |- context [for_list ?F _ _] => rewrite (ya_attr_loop F) end.
+  2:{ intros a buf fl. rewrite g_ya_splice_eq. cbv beta iota. rewrite g_ya_attr_fmt_eq. cbv beta iota.
+      now rewrite <- app_assoc. }
+  cbv beta iota. rewrite !g_ya_setq_contains_eq.
+  unfold ya_items.
+  set (A := map (fun a => [ya_attr_code a]) (ya_attr_list (ya_attrs st))).
+  set (nb := ya_has (ya_quirks st) YaOnBright). set (nf := ya_has (ya_quirks st) YaBright).
+  cbn [orb].
+  assert (Hbr : forall c b, (match c, b with Some color1, true => Some (g_ya_to_bright color1) | _, _ => c end) = ya_brighten c b).
+  { intros [c|] [|]; cbn [ya_brighten]; rewrite ?g_ya_to_bright_eq; reflexivity. }
+  rewrite !Hbr.
+  rewrite !ya_spliced_app.
+  destruct (ya_brighten (ya_bg st) nb) as [cb|], (ya_brighten (ya_fg st) nf) as [cf|];
+    cbn [ya_spliced ya_nonempty orb app];
+    rewrite ?g_ya_splice_eq; cbv beta iota; rewrite ?g_ya_color_fmt_eq; cbv beta iota;
+    rewrite ?g_ya_splice_eq; cbv beta iota; rewrite ?g_ya_color_fmt_eq; cbv beta iota;
+    rewrite ?g_ya_splicer_write_str_eq; cbn [asp_f];
+    rewrite ?orb_true_r, ?app_nil_r; repeat (rewrite <- app_assoc; cbn [app]); try reflexivity.
+  all: unfold A; destruct (ya_attr_list (ya_attrs st)); reflexivity.
+Qed.
+
+Lemma g_ya_fmt_suffix_eq st f : g_ya_fmt_suffix st f = Some (f ++ ya_suffix st, inl tt).
+Proof.
+  unfold g_ya_fmt_suffix, ya_suffix. rewrite !g_ya_setq_contains_eq, g_ya_style_eq_default.
+  destruct (ya_has (ya_quirks st) YaResetting), (ya_has (ya_quirks st) YaClear); cbn [negb andb]; cbv beta iota zeta;
+    try reflexivity.
+  destruct (ya_has (ya_quirks st) YaLinger), (ya_is_default st); cbn [orb]; rewrite ?app_nil_r; reflexivity.
+Qed.
+
+(* ---- Painted ------------------------------------------------------------------ *)
+
+(* is styling emitted?  the global switch and the style's own condition (a Condition = its answer) *)
+Definition ya_enabled (ENABLED : bool) (st : ya_style) : bool :=
+  ENABLED && match ya_cond st with Some c => c | None => true end.
+
+(* the hand rendering of `format!("{}", text.paint(st))` while neither Wrap path is taken *)
+Definition ya_painted_bytes (ENABLED : bool) (text : list N) (st : ya_style) : list N :=
+  if ya_enabled ENABLED st then ya_prefix st ++ text ++ ya_suffix st
+  else if ya_has (ya_quirks st) YaMask then [] else text.
+
+Lemma g_ya_color_fmt_value_eq o text st f : ya_attrs st < 512 ->
+  g_ya_color_fmt_value o (mkYaPainted text st) ya_str_display f = Some (f ++ ya_prefix st ++ text ++ ya_suffix st, inl tt).
+Proof.
+  intros Hb. unfold g_ya_color_fmt_value. cbn [yp_style yp_value].
+  rewrite (g_ya_fmt_prefix_eq _ _ Hb). cbv beta iota zeta.
+  unfold ya_str_display, ya_w_write_str. cbv beta iota zeta.
+  rewrite g_ya_fmt_suffix_eq. now rewrite <- !app_assoc.
+Qed.
+
+Lemma g_ya_painted_fmt_eq o en text st f : ya_attrs st < 512 -> ya_has (ya_quirks st) YaWrap = false ->
+  g_ya_painted_fmt o (mkYaPainted text st) en f = Some (f ++ ya_painted_bytes en text st, inl tt).
+Proof.
+  intros Hb Hw. unfold g_ya_painted_fmt, g_ya_fmt_args, g_ya_painted_enabled, ya_painted_bytes. cbn [yp_style yp_value].
+  rewrite !g_ya_setq_contains_eq, Hw. cbv zeta.
+  change (g_ya_is_enabled en && match ya_cond st with Some cd1 => ya_cond_call cd1 | None => true end) with (ya_enabled en st).
+  destruct (ya_enabled en st).
+  - destruct (ya_has (ya_quirks st) YaMask); rewrite (g_ya_color_fmt_value_eq _ _ _ _ Hb); reflexivity.
+  - destruct (ya_has (ya_quirks st) YaMask); cbv beta iota; [now rewrite app_nil_r|reflexivity].
+Qed.
+
+(* THE entry point: `yansi::enable(); text.paint(st).to_string()`, whatever the global switch held before
+   and whatever the oracle of the two Wrap paths answers *)
+Definition ya_render_bytes (text : list N) (st : ya_style) : list N :=
+  ya_painted_bytes true text st.
+
+Lemma g_yansi_render_text_eq o en0 text st : ya_attrs st < 512 -> ya_has (ya_quirks st) YaWrap = false ->
+  g_yansi_render_text o en0 text st = Some (ya_render_bytes text st).
+Proof.
+  intros Hb Hw. unfold g_yansi_render_text, g_yansi_to_string, g_ya_paint. cbv zeta.
+  change (g_ya_enable en0) with true.
+  rewrite (g_ya_painted_fmt_eq _ _ _ _ _ Hb Hw). reflexivity.
+Qed.
